@@ -8,7 +8,12 @@ import (
 
 func BuildMethodParameters(parameters parser.IFormalParametersContext) []core_domain.CodeProperty {
 	var methodParams []core_domain.CodeProperty = nil
-	parameterList := parameters.GetChild(1).(*parser.FormalParameterListContext)
+	// the parameter list is optional and may come after a receiver parameter (`Foo this`)
+	parametersCtx, ok := parameters.(*parser.FormalParametersContext)
+	if !ok || parametersCtx.FormalParameterList() == nil {
+		return methodParams
+	}
+	parameterList := parametersCtx.FormalParameterList().(*parser.FormalParameterListContext)
 	formalParameter := parameterList.AllFormalParameter()
 	for _, param := range formalParameter {
 		paramContext := param.(*parser.FormalParameterContext)
